@@ -260,27 +260,30 @@ Proof.
   apply IH in E1' as (->&L1&N1&->&HL1&HN1&Ho1&Hd1&Hdlo); [|done|lia| |]; cycle 1.
   { intros l [Hl| ->%elem_of_singleton]%elem_of_union; [by apply HL|done]. }
   { intros n [Hn| ->%elem_of_singleton]%elem_of_union Hle.
-    - apply (Hmono L); [set_solver|]. apply HN; [done|]. lia.
+    - apply (Hmono L); [apply union_subseteq_l|]. apply HN; [done|]. lia.
     - rewrite lvl_abs in Hle. lia. }
   rewrite (bind_ok _ _ _ _ _ E1).
+  assert (HLL1 : L ⊆ L1) by (intros x Hx; apply HL1, elem_of_union; by left).
+  assert (HNN1 : N ⊆ N1) by (intros x Hx; apply HN1, elem_of_union; by left).
   (* high branch *)
   intros E2.
   apply IH in E2 as (->&L2&N2&->&HL2&HN2&Ho2&Hd2&Hdhi); [|done|lia| |]; cycle 1.
   { intros l Hl. destruct (Ho1 l Hl) as [[Hl'| ->%elem_of_singleton]%elem_of_union|Hl'];
       [by apply HL|done|]. by apply (occurs_lt s (t_lo t)). }
   { intros n Hn Hle. destruct (Hd1 n Hn) as [[Hn'| ->%elem_of_singleton]%elem_of_union|Hn'].
-    - apply (Hmono L); [set_solver|]. apply HN; [done|]. lia.
+    - apply (Hmono L); [done|]. apply HN; [done|]. lia.
     - rewrite lvl_abs in Hle. lia.
     - done. }
   split; [done|]. exists L2, N2.
   assert (Hdu : done_ L2 (absn u)).
-  { intros l Hl. apply occurs_abs in Hl. apply occurs_inv in Hl as (t'&Ht'&_&Hc).
+  { intros l Hl. apply (proj1 (occurs_abs s u l)) in Hl.
+    apply occurs_inv in Hl as (t'&Ht'&_&Hc).
     rewrite Ht in Ht'. injection Ht' as <-.
     destruct Hc as [->|[Hc|Hc]].
-    - set_solver.
+    - apply HL2, HL1, elem_of_union. right. by apply elem_of_singleton.
     - apply HL2. apply Hdlo. by apply occurs_abs.
     - apply Hdhi. by apply occurs_abs. }
-  split_and!; [done|set_solver|set_solver| | |done].
+  split_and!; [done|by etrans|by etrans| | |done].
   - intros l Hl. destruct (Ho2 l Hl) as [Hl'|Hl']; [|right; by apply (occ_hi s u t)].
     destruct (Ho1 l Hl') as [[Hl''| ->%elem_of_singleton]%elem_of_union|Hl''];
       [by left|right; by apply (occ_here s u t)|right; by apply (occ_lo s u t)].
@@ -313,7 +316,9 @@ Proof.
   induction fuel as [|fu IH]; intros u i r s' Hu Hfuel Hi; [lia|].
   cbn [is_essential_rec].
   destruct (node_cases s HI u Hu) as [[E El]|(t&Ht&Hn&Hlo&Hl&Hln&Hvl&Hvh&Hhp&Hll&Hlh&Hne)].
-  - rewrite (bind_ok _ _ _ _ _ (getsuccZ_ok s u _ (proj1 Hu) (eq_trans (f_equal _ E) (inv_term _ HI)))).
+  - assert (Ht1 : succ s !! absn u = Some (tterm (nvars s)))
+      by (rewrite E; apply (inv_term _ HI)).
+    rewrite (bind_ok _ _ _ _ _ (getsuccZ_ok s u _ (proj1 Hu) Ht1)).
     cbn [t_lvl tterm]. rewrite decide_True by done.
     intros [= <- <-]. split; [done|]. exists false. split; [done|]. split; [done|].
     intros Ho. apply occurs_inv in Ho as (?&_&?&_). done.
@@ -375,11 +380,13 @@ Proof.
   destruct (support_levels u s) as [r1 s1] eqn:E1.
   destruct (support_levels_occ s HI u r1 s1 Hu E1) as (->&X&->&HX).
   rewrite (bind_ok _ _ _ _ _ E1).
-  rewrite (bind_ok _ _ _ _ _ (mapM_pure var_at_level (nm s) (elements X) s _)).
-  - intros [= <- <-]. split; [done|]. by exists X.
-  - intros l Hl%elem_of_elements%HX. apply (occurs_lt s u l HI) in Hl.
+  assert (Hm : mapM var_at_level (elements X) s = (Ok (nm s <$> elements X), s)).
+  { apply mapM_pure.
+    intros l Hl%elem_of_elements%HX. apply (occurs_lt s u l HI) in Hl.
     apply (inv_lvls _ HI) in Hl as [v Hv]. apply var_at_level_ok.
-    unfold nm. by rewrite Hv.
+    unfold nm. by rewrite Hv. }
+  rewrite (bind_ok _ _ _ _ _ Hm).
+  intros [= <- <-]. split; [done|]. by exists X.
 Qed.
 
 Theorem support_spec s u r s' : Inv s → valid s u →
